@@ -172,10 +172,13 @@ static void wl_resume(Rng& r, long count, bool full, const string& file) {
   for (long it = 0; it < count; it++) {
     try {
       Problem P; bool okp = r.coin(35) ? make_singular(r, P) : make_problem(r, P); if (!okp) continue;
-      System& sys = *P.sys; IntervalVector root = sys.box; redeclare_domain(r, sys, root);
+      System& sys = *P.sys; IntervalVector root = sys.box;
+      // a solution ON the border of the search box (boundary boxes of square / inequality-only systems with a non-default boundary test)
+      if (r.coin(35)) { const Vector& z = P.planted[0]; for (int i = 0; i < P.n; i++) if (r.coin(60) && root[i].contains(z[i])) { if (r.coin()) root[i] = Interval(z[i], root[i].ub()); else root[i] = Interval(root[i].lb(), z[i]); } sys.box = root; }
+      redeclare_domain(r, sys, root);
       Config c; double e = r.coin() ? 0.125 : 0.03125;
       c.eps_min = Vector(P.n, e); c.eps_max = Vector(P.n, r.coin(80) ? POS_INFINITY : 1.0);
-      if (r.coin(30)) { static const int BT[] = {Solver::ALL_TRUE, Solver::FULL_RANK, Solver::ALL_FALSE}; c.btest = BT[r.below(3)]; } c.byname = r.coin(40); FROM_FILE = file;
+      if (r.coin(45)) { static const int BT[] = {Solver::ALL_TRUE, Solver::ALL_TRUE, Solver::FULL_RANK, Solver::ALL_FALSE}; c.btest = BT[r.below(4)]; } c.byname = r.coin(40); FROM_FILE = file;
       c.ctc_kind = r.coin(70) ? 0 : 1; c.newton = (P.m == P.n && P.k == 0 && r.coin(40)); c.bsc_kind = r.below(3); c.buf_kind = r.coin(70) ? 0 : 1;
       // the uninterrupted run: number of cells N
       long maxN = full ? 600 : 160;
